@@ -5,7 +5,7 @@ from .. import h1, h2, drv, scen
 from ..scen import stmt, wrap_fn
 
 LOCKS = ["absent", "valid100", "bare", "corrupt", "empty", "wrongkey", "negative", "noninteger", "valid5000000000",
-         "conflict", "dupkey"]
+         "conflict", "dupkey", "valid_doc100", "valid_crlf100", "valid_tail100"]
 
 
 def trees(structured_src):
